@@ -15,8 +15,8 @@ ASSUMPTIONS = ["reference renderer/parser vf/ref/asm.py", "no claim for: case-in
 NSHARDS = {"quick": 32, "thorough": 64}
 BUDGET_S = {"quick": 200, "thorough": 1800}
 MIN_HITS = {
-    "quick": {"exh2": 140000, "grammar": 1500, "ws": 1500, "xasm": 140000, "digit_push": 3000, "reject_case": 300, "accept_case": 300, "conditional": 800},
-    "thorough": {"exh2": 140000, "grammar": 40000, "ws": 40000, "xasm": 140000, "digit_push": 3000, "reject_case": 3000, "accept_case": 3000, "conditional": 20000, "push>=65536": 50},
+    'quick': {"exh2": 140000, "grammar": 1500, "ws": 1500, "xasm": 140000, "digit_push": 3000, "reject_case": 300, "accept_case": 300, "conditional": 800},
+    'thorough': {"exh2": 85730, "grammar": 192000, "ws": 325530, "xasm": 277957, "digit_push": 111679, "reject_case": 46023, "accept_case": 69177, "conditional": 127284, "push>=65536": 5353},
 }
 SEPS = [" ", "  ", "     ", " \n ", " \r\n ", " \n\n ", " \t ", "\n ", " \n", " \r\n", "\t "]
 
@@ -51,7 +51,7 @@ def cases(ctx):
                 yield {"k": "script", "hex": wire.detok([a, b]).hex(), "tag": "exh2"}
     if S == 0:
         ctx.exhaustive.append("all scripts of 1 and 2 tokens over a %d-token alphabet (every plain opcode, all 256 one-byte pushes, 2/75/76/255/256-byte pushes)" % len(A))
-    n = 5000 if t else 50
+    n = 20000 if t else 50
     for i in range(n):
         depth = r.choice([1, 2, 4, 8, 20, 50])
         pl = [1, 1, 2, 2, 3, 20, 33, 75, 76, 255, 256, 520] + ([65535, 65536, 70000] if r.random() < (0.1 if t else 0.03) else [])
@@ -62,7 +62,7 @@ def cases(ctx):
         yield {"k": "script", "hex": wire.detok(toks).hex(), "tag": "grammar", "ws_seed": r.getrandbits(30)}
     # hand-made text
     names = list(asm.NAME2OP) + list(asm.ALIASES)
-    for i in range(1500 if t else 12):
+    for i in range(6000 if t else 12):
         good = [r.choice(names) if r.random() < 0.6 else gen.rbytes(r, r.choice([1, 2, 3, 20, 76])).hex() for _ in range(r.randrange(1, 6))]
         good = [g for g in good if g not in ("OP_IF", "OP_NOTIF", "OP_VERIF", "OP_VERNOTIF", "OP_ELSE", "OP_ENDIF", "OP_PUSHDATA1", "OP_PUSHDATA2", "OP_PUSHDATA4")] or ["OP_1"]
         yield {"k": "text", "text": " ".join(good), "expect": "accept"}
